@@ -246,3 +246,89 @@ Proof.
     + intros. apply step64_inv.
   - unfold Inv64. cbn [fst snd]. change (2 ^ 32) with 4294967296. lia.
 Qed.
+(* ---- the bit-serial register computes a polynomial remainder ---- *)
+Lemma multG_xor : forall G a b, multG G a -> multG G b -> multG G (Z.lxor a b).
+Proof.
+  intros G a b Ha Hb. induction Hb as [|m k Hk Hm IH].
+  - rewrite Z.lxor_0_r. exact Ha.
+  - rewrite <- Z.lxor_assoc. apply multG_add; assumption.
+Qed.
+Lemma multG_shift : forall G m j, 0 <= j -> multG G m -> multG G (Z.shiftl m j).
+Proof.
+  intros G m j Hj Hm. induction Hm as [|m k Hk Hm IH].
+  - rewrite Z.shiftl_0_l. constructor.
+  - rewrite Z.shiftl_lxor, Z.shiftl_shiftl by lia. apply multG_add; [lia|exact IH].
+Qed.
+
+Lemma step_residue : forall w r b, 0 < w -> 0 <= r < 2 ^ w ->
+  Z.lxor ((Z.shiftl r 1) mod 2 ^ w) (Z.lxor (Z.shiftl r 1) (Z.shiftl (Z.b2z b) w)) =
+  if xorb (Z.testbit r (w - 1)) b then 2 ^ w else 0.
+Proof.
+  intros w r b Hw Hr. apply Z.bits_inj'; intros i Hi.
+  rewrite !Z.lxor_spec.
+  assert (RHS: Z.testbit (if xorb (Z.testbit r (w - 1)) b then 2 ^ w else 0) i =
+               (xorb (Z.testbit r (w - 1)) b && (w =? i))).
+  { destruct (xorb (Z.testbit r (w - 1)) b); [rewrite Z.pow2_bits_eqb by lia; reflexivity|apply Z.bits_0]. }
+  rewrite RHS. clear RHS.
+  destruct (Z.ltb_spec i w) as [Hlt|Hge].
+  - rewrite Z.mod_pow2_bits_low by lia. rewrite (Z.shiftl_spec_low (Z.b2z b)) by lia.
+    replace (w =? i) with false by lia. rewrite andb_false_r. destruct (Z.testbit (Z.shiftl r 1) i); reflexivity.
+  - rewrite Z.mod_pow2_bits_high by lia. rewrite !Z.shiftl_spec by lia. rewrite xorb_false_l.
+    destruct (Z.eqb_spec w i) as [->|Hne].
+    + rewrite Z.sub_diag, Z.b2z_bit0, andb_true_r. reflexivity.
+    + rewrite (testbit_small r w (i - 1)) by lia.
+      rewrite (testbit_small (Z.b2z b) 1 (i - w)) by (destruct b; cbn; lia). rewrite andb_false_r. reflexivity.
+Qed.
+
+Lemma step_cong : forall poly w r b, 0 < w -> 0 <= poly < 2 ^ w -> 0 <= r < 2 ^ w ->
+  congG (2 ^ w + poly) (crc_step poly w r b) (Z.lxor (Z.shiftl r 1) (Z.shiftl (Z.b2z b) w)).
+Proof.
+  intros poly w r b Hw Hp Hr. unfold congG, crc_step.
+  pose proof (step_residue w r b Hw Hr) as E.
+  destruct (xorb (Z.testbit r (w - 1)) b).
+  - rewrite (Z.lxor_comm _ poly), Z.lxor_assoc, E.
+    rewrite lxor_pow2_clear by lia.
+    rewrite <- (Z.lxor_0_l (poly + 2 ^ w)), <- (Z.shiftl_0_r (poly + 2 ^ w)), (Z.add_comm poly).
+    apply multG_add; [lia|constructor].
+  - rewrite E. constructor.
+Qed.
+
+Lemma lxor_rearrange : forall R A B C D,
+  Z.lxor (Z.lxor R (Z.lxor A B)) (Z.lxor A (Z.lxor C D)) = Z.lxor R (Z.lxor C (Z.lxor D B)).
+Proof.
+  intros. apply Z.bits_inj'; intros i _. rewrite !Z.lxor_spec.
+  destruct (Z.testbit R i), (Z.testbit A i), (Z.testbit B i), (Z.testbit C i), (Z.testbit D i); reflexivity.
+Qed.
+
+Lemma crc_remainder_l : forall poly w bits r0, 0 < w -> 0 <= poly < 2 ^ w -> 0 <= r0 < 2 ^ w ->
+  let R := fold_left (crc_step poly w) bits r0 in
+  0 <= R < 2 ^ w /\
+  congG (2 ^ w + poly) R
+        (Z.lxor (Z.shiftl r0 (Z.of_nat (length bits))) (Z.shiftl (msg_poly bits) w)).
+Proof.
+  intros poly w bits. induction bits as [|b bits IH]; intros r0 Hw Hp Hr; cbv zeta.
+  - cbn [fold_left length msg_poly]. split; [exact Hr|]. unfold congG.
+    change (Z.of_nat 0) with 0. rewrite Z.shiftl_0_r, Z.shiftl_0_l, Z.lxor_0_r, Z.lxor_nilpotent. constructor.
+  - cbn [fold_left].
+    assert (Hr1: 0 <= crc_step poly w r0 b < 2 ^ w) by (apply crc_step_range; lia).
+    destruct (IH (crc_step poly w r0 b) Hw Hp Hr1) as [HR HC]. split; [exact HR|].
+    set (R := fold_left (crc_step poly w) bits (crc_step poly w r0 b)) in *.
+    set (r1 := crc_step poly w r0 b) in *. set (n := Z.of_nat (length bits)) in *.
+    pose proof (step_cong poly w r0 b Hw Hp Hr) as HS. fold r1 in HS. unfold congG in *.
+    pose proof (multG_shift _ _ n ltac:(lia) HS) as HS'.
+    pose proof (multG_xor _ _ _ HC HS') as HX.
+    rewrite !Z.shiftl_lxor, !Z.shiftl_shiftl in HX by lia.
+    rewrite lxor_rearrange in HX.
+    cbn [length msg_poly]. fold n. rewrite Z.shiftl_lxor, Z.shiftl_shiftl by lia.
+    replace (Z.of_nat (S (length bits))) with (1 + n) by lia.
+    replace (n + w) with (w + n) by lia. exact HX.
+Qed.
+Lemma crc_spec_remainder_l : forall poly w init xorout data, 0 < w -> 0 <= poly < 2 ^ w -> 0 <= init < 2 ^ w ->
+  let bits := flat_map byte_bits data in
+  exists R, crc_spec poly w init xorout data = Z.lxor R xorout /\ 0 <= R < 2 ^ w /\
+    congG (2 ^ w + poly) R (Z.lxor (Z.shiftl init (Z.of_nat (length bits))) (Z.shiftl (msg_poly bits) w)).
+Proof.
+  intros poly w init xorout data Hw Hp Hi bits.
+  exists (fold_left (crc_step poly w) bits init). split; [reflexivity|].
+  exact (crc_remainder_l poly w bits init Hw Hp Hi).
+Qed.
